@@ -101,6 +101,10 @@ class Project(object):
     def check_changes(self):
         # type: () -> t.Iterator[None]
         self._context_cache.clear()
+        # a cached analysis refers to the analyses of the modules it imports:
+        # when any source file changed, none of them can be trusted
+        if any(m.changed for m in list(self._module_cache.values())):
+            self._module_cache.clear()
         yield
 
     def get_nmodule(self, name, filename):
